@@ -175,9 +175,9 @@ class TreeGen:
             m = r.choice([2, 3, 5, 7]); rem = r.randrange(m)
             self.emit("eim", reg, m, rem)
             self.keys[reg] = set(x for x in ks if x % m != rem)
-        elif c < 0.95:
+        elif c < 0.94:
             self.emit("iter", reg)
-        elif c < 0.975:
+        elif c < 0.98:
             self.combine(reg)
         else:
             self.mixed(reg)
@@ -214,6 +214,14 @@ class TreeGen:
     def combine(self, reg):
         r = self.rng
         s = r.choice([x for x in range(4) if x != reg])
+        if r.random() < 0.35 and self.size[reg] >= 8:
+            # a fresh operand with many keys that are not stored in the target: the whole-row linear_combine
+            # then counts enough missing keys to take its bulk-copy branch (CO_Tree iterator constructor)
+            self.new(s, self.size[reg])
+            cnt = r.randint(max(1, self.size[reg] // 8), max(2, min(self.size[reg] // 2, self.maxn)))
+            for k in r.sample(range(self.size[reg]), min(cnt, self.size[reg])):
+                self.emit("ins", s, k, self.val() or 1)
+                self.keys[s].add(k)
         if self.size[s] == 0 or self.size[s] > self.size[reg]:
             # make s a (possibly truncated) copy-derived row of a compatible size, then perturb it
             sz = r.choice([self.size[reg], max(1, self.size[reg] // 2)])
